@@ -462,7 +462,7 @@ def check_remove(ctx, e, ans, corr=True):
             why = "raises %s" % r
         elif dump(r) != dump(want):
             why = "returned %s, expected %s" % (bridge.dump(r), bridge.dump(want))
-        else:
+        elif isinstance(r, ast.AST):
             st2, r2, _ = impl_remove(r)
             if st2 != "ok" or dump(r2) != dump(r):
                 why = "cleaning the result again changes it"
